@@ -84,6 +84,12 @@ X7WriteBytes(st, addr, data, i) ==
               IF a = RIrqFlags THEN
                  X7WriteBytes([st EXCEPT !.irqclr = Append(@, b), !.rf = [@ EXCEPT ![a + 1] = @ & (255 - b)],
                                          !.order = Append(@, a)], addr, data, i + 1)
+              ELSE IF a = ROpMode THEN
+                 \* LongRangeMode (bit 7) "can be modified only in Sleep mode": it follows the written value only when
+                 \* the chip is in sleep and the write keeps it there; otherwise the current bit is kept
+                 LET cur == st.rf[ROpMode + 1]
+                     v == IF cur % 8 = 0 /\ b % 8 = 0 THEN b ELSE (cur & 128) | (b & 127) IN
+                 X7WriteBytes([st EXCEPT !.rf = [@ EXCEPT ![a + 1] = v], !.order = Append(@, a)], addr, data, i + 1)
               ELSE X7WriteBytes([st EXCEPT !.rf = [@ EXCEPT ![a + 1] = b], !.order = Append(@, a)], addr, data, i + 1)
 
 X7Txn(st, t) ==
@@ -264,6 +270,19 @@ IrqParamsEffect(mode) ==
 \* ------------------------------------------------------------------ symbol-count RX timeout (DS 4.1.5: SymbTimeout(9:0))
 MaxSymbTimeout7 == 1023
 SymbTimeoutOwn(n) == << <<RModemConfig2, 3, (n \div 256) % 4>>, <<RSymbTimeoutLsb, 255, Lo8(n)>> >>
+
+
+\* ------------------------------------------------------------------ reference-driver specific pieces
+\* bandwidth in Hz as the reference rounds it (errata 2.3 RF offset for bandwidths below 62.5 kHz)
+BwHzRef == <<7812, 10417, 15625, 20833, 31250, 41667, 62500, 125000, 250000, 500000>>
+\* the reference's generic interrupt mask (bit 0 TxDone, 1 RxDone, 4 HeaderValid, 6 CrcError, 7 CadDone, 8 CadDetected,
+\* 9 Timeout; 0x7FF = all) mapped onto RegIrqFlagsMask (1 = masked)
+IrqMaskReg7(m) ==
+    IF (m & 2047) = 2047 THEN 0
+    ELSE 255 - ((IF (m & 1) # 0 THEN 8 ELSE 0) + (IF (m & 2) # 0 THEN 64 ELSE 0) + (IF (m & 64) # 0 THEN 32 ELSE 0)
+                + (IF (m & 16) # 0 THEN 16 ELSE 0) + (IF (m & 128) # 0 THEN 4 ELSE 0) + (IF (m & 256) # 0 THEN 1 ELSE 0)
+                + (IF (m & 512) # 0 THEN 128 ELSE 0))
+DioFree == << <<RDioMapping1, 255>>, <<RDioMapping2, 255>> >>
 
 (* ======================================================================== *)
 (* Decode operators (property C17)                                          *)
